@@ -219,7 +219,7 @@ fn run_one(
     monitors: &[String],
     scratch: &Scratch,
     prog_ix: usize,
-) -> (Obs, Vec<(String, String)>, BTreeMap<String, u64>, u64) {
+) -> (Obs, Vec<(String, String, String)>, BTreeMap<String, u64>, u64) {
     let mut value: Value = Value::from(espec.value.clone());
     let mut metadata: Value = espec.metadata.clone().map(Value::from).unwrap_or_else(|| Value::Object(Default::default()));
     let mut secrets = secrets_from(&espec.secrets);
@@ -236,7 +236,10 @@ fn run_one(
     } else {
         Backing::Owned(TargetValue { value, metadata, secrets })
     };
+    let ro_set = mon.c15.clone();
     let mut target = SimTarget::new(backing, faults.clone(), mon, &keys);
+    // C15, whole-run view: values at read-only paths before the run (read from the backing store, not through the seam)
+    let ro_before: Option<Vec<Option<Value>>> = ro_set.as_ref().map(|ro| ro.iter().map(|(p, _)| target.peek(p)).collect());
     sched::mark_run(Some(prog_ix));
     let r = catch_unwind(AssertUnwindSafe(|| runtime.resolve(&mut target, program, tz)));
     sched::mark_run(None);
@@ -250,7 +253,28 @@ fn run_one(
         render::value(target.inner.metadata()),
         target.secrets_rendered()
     );
+    if let (Some(ro), Some(before)) = (&ro_set, &ro_before) {
+        for (i, ((p, recursive), b)) in ro.iter().zip(before.iter()).enumerate() {
+            let a = target.peek(p);
+            let bad = if *recursive { *b != a } else { b.is_some() && a.is_none() };
+            // only what no operation-level hit already explains (e.g. a mutation that bypassed insert/remove)
+            if bad && !target.c15_flagged.borrow().contains(&i) {
+                target.hits.borrow_mut().push((
+                    "c15".into(),
+                    "whole-run".into(),
+                    format!(
+                        "after the run, read-only{} path {} holds {} but held {} before",
+                        if *recursive { " (recursive)" } else { "" },
+                        render::target_path(p),
+                        render::opt_value(a.as_ref()),
+                        render::opt_value(b.as_ref())
+                    ),
+                ));
+            }
+        }
+    }
     let obs = Obs {
+        counters: target.probes.borrow().clone(),
         node: 0,
         op: 0,
         kind: "run".into(),
@@ -313,8 +337,8 @@ fn node_main(
                 obs.node = ix;
                 obs.op = op_ix;
                 out.log_digest = fnv_add(fnv_add(out.log_digest, &d.to_le_bytes()), obs.outcome.as_bytes());
-                for (m, w) in hits {
-                    out.hits.push(MonitorHit { monitor: m, node: ix, op: op_ix, what: w });
+                for (m, c, w) in hits {
+                    out.hits.push(MonitorHit { monitor: m, class: c, node: ix, op: op_ix, what: w });
                 }
                 for (k, v) in probes {
                     *out.probes.entry(k).or_insert(0) += v;
@@ -326,7 +350,7 @@ fn node_main(
                 last_run_terminated_early = false;
                 let empty = runtime.is_empty();
                 if !empty {
-                    out.hits.push(MonitorHit { monitor: "residue".into(), node: ix, op: op_ix, what: "Runtime::is_empty() is false after clear()".into() });
+                    out.hits.push(MonitorHit { class: String::new(), monitor: "residue".into(), node: ix, op: op_ix, what: "Runtime::is_empty() is false after clear()".into() });
                 }
                 out.obs.push(Obs { node: ix, op: op_ix, kind: "clear".into(), outcome: format!("empty={empty}"), ..Default::default() });
             }
@@ -358,7 +382,7 @@ pub fn run_world(world: &WorldSpec, scratch: &Scratch) -> WorldResult {
     }
     for f in &world.files {
         if let Err(e) = apply_file(scratch, f) {
-            res.monitor_hits.push(MonitorHit { monitor: "harness".into(), node: 0, op: 0, what: format!("file state {}: {e}", f.name) });
+            res.monitor_hits.push(MonitorHit { class: String::new(), monitor: "harness".into(), node: 0, op: 0, what: format!("file state {}: {e}", f.name) });
         }
     }
     // precompilation on this (coordinator) thread
@@ -407,7 +431,7 @@ pub fn run_world(world: &WorldSpec, scratch: &Scratch) -> WorldResult {
         if stuck {
             // nodes are parked for ever; the session cannot continue. Report and leave the process.
             let mut r = SessionResult::default();
-            res.monitor_hits.push(MonitorHit { monitor: "stuck".into(), node: 0, op: 0, what: "no node reached a yield point within the watchdog".into() });
+            res.monitor_hits.push(MonitorHit { class: String::new(), monitor: "stuck".into(), node: 0, op: 0, what: "no node reached a yield point within the watchdog".into() });
             r.worlds.push(std::mem::take(&mut res));
             println!("{}", serde_json::to_string(&r).unwrap());
             std::process::exit(0);
@@ -452,7 +476,7 @@ pub fn run_session(spec: &SessionSpec) -> SessionResult {
             Ok(w) => result.worlds.push(w),
             Err(_) => result.worlds.push(WorldResult {
                 id: world.id.clone(),
-                monitor_hits: vec![MonitorHit { monitor: "harness".into(), node: 0, op: 0, what: format!("coordinator panicked: {}", take_panic()) }],
+                monitor_hits: vec![MonitorHit { class: String::new(), monitor: "harness".into(), node: 0, op: 0, what: format!("coordinator panicked: {}", take_panic()) }],
                 ..Default::default()
             }),
         }
